@@ -73,7 +73,7 @@ CHECKS = {
         'requested at every step; at empty exactly requested (>= for keep-completed policies); one pause removes exactly the live trials ending after t, newest first, '
         'restores each once, leaves nothing pending; paused output is zeros with no trial start; first trial after resume(t2) starts at t2; future pause rejected. '
         'Model tied to queue.py by a correspondence that pauses at EVERY sample position of small timelines plus random histories.',
-   ref='DESIGN.md section 6 C04', note=COMMON_NOTE + ' Pause/resume times on the sample grid; declared duration == waveform length; a rejected pause ends the history. Shuffle/randint are oracles.',
+   ref='DESIGN.md section 6 C04', note=COMMON_NOTE + ' Pause/resume times on the sample grid. The _x theorems (C04_conservation_x, _at_empty_x, _pause_exact_x, _rejected_pause_atomic, _rejected_pause_is_skip, closest-key / log order) extend this to histories with rejected pauses (a no-op since the repair), pops with decrement=False and arbitrary declared durations. Shuffle/randint are oracles.',
    technique='Coq proof (history invariant by induction over operations) + vm_compute model outputs compared against queue.py'),
  'C05': dict(
    text='Refinement theorem: the model of capture_epoch/extract_epochs equals an abstract spec send by send for every stream, chunking (incl. empty chunks), '
@@ -87,7 +87,7 @@ CHECKS = {
         'reference semantics returns (function of the generator\'s own parameters and calls); noninterference under insertion of caller writes / memoised calls / '
         'global-random use / use of other generators; reset and deepcopy replay; memoised results are pure and writes to them rejected. The model is tied to '
         'stim.py by random programs on real objects with in-place writes into every returned array, plus queue append/clone programs judged by an oracle.',
-   ref='DESIGN.md section 6 C10', note=COMMON_NOTE + ' That real objects have no hidden shared state beyond what the model lists is probed by the correspondence, not proved; RandomSignalQueue (global RNG by design) is outside.',
+   ref='DESIGN.md section 6 C10', note=COMMON_NOTE + ' That real objects have no hidden shared state beyond what the model lists is probed by the correspondence (incl. calibration objects shared between a factory and its copies), not proved; memoisation over MUTABLE argument objects has its own model (Determ/ModelMemo.v: value-keyed memo pure for every program, identity-keyed refuted); RandomSignalQueue (global RNG by design) is outside.',
    technique='Coq proof (refinement of an aliasing heap model to a pure reference semantics) + vm_compute model outputs compared against stim.py'),
  'C03': dict(
    text='Theorem: for every queue class, any number of stimuli, any trial counts >= 1, any group size >= 1 (dividing or not) and any request chunking, once the queue '
@@ -102,7 +102,7 @@ CHECKS = {
         'chunking into non-empty chunks, plain and annotated, 1-D and 2-D: concatenated output = the whole-signal definition (e.g. decimate = filter whole signal then '
         'every q-th sample, with the filter an abstract mapAccum) and consecutive annotated outputs are contiguous with the right rate, labels and metadata. '
         'Model tied to pipeline.py by exhaustive chunkings of small N + random, bit-exact against one-shot scipy primitives.',
-   ref='DESIGN.md section 6 C12', note=COMMON_NOTE + ' lfilter/RMS/threshold kernels are abstract step functions (oracles); derivative is claimed for annotated input; rms contiguity assumes n divides the first s0.',
+   ref='DESIGN.md section 6 C12', note=COMMON_NOTE + ' lfilter/RMS/threshold kernels are abstract step functions (oracles); derivative is claimed for annotated input; rms: C12_rms_contiguous* assume n divides the first s0, C12_rms_x_* cover every first s0; event_rate: C12_event_rate_causal* cover every stream whose events lie at or after the start of their block (they may lie beyond its end, as edges() emits them), fractional block_step by the scaling theorems.',
    technique='Coq proof (carry-over state invariants by induction over chunk lists) + vm_compute correspondence against pipeline.py'),
  'C11': dict(
    text='Theorem C11_getitem_regular: for EVERY index expression over ints, slices, lists, boolean masks, Ellipsis and newaxis on any well-formed 1-3-D annotated array, '
@@ -124,7 +124,7 @@ CHECKS = {
         'one\'s delay; one request for a+b samples equals a then b (output, added notifications, clock, flags, remaining trials) from any reachable state; the request loop '
         'terminates without raising for the deterministic policies. Model tied to queue.py by all compositions of small totals, boundary-aligned requests and random, '
         'array and generator sources, non-integer rates, on- and off-grid start offsets (t0 compared bit-exactly with start offset + k/fs).',
-   ref='DESIGN.md section 6 C02', note=COMMON_NOTE + ' Scalar (cycled) delays in the theorems; per-trial delay lists by correspondence only; every trial occupies >= 1 sample for the termination theorem; insert() and 2-D sources outside.',
+   ref='DESIGN.md section 6 C02', note=COMMON_NOTE + ' Scalar (cycled) delays and per-trial delay lists (_lists theorems); declared durations arbitrary (_any_duration theorems: the declared duration is carried in the log only); every trial occupies >= 1 sample for the termination theorem; insert() and 2-D sources outside.',
    technique='Coq proof (ghost-state invariant + fuel-free big-step semantics of the request loop) + vm_compute model outputs compared against queue.py'),
  'C06': dict(
    text='Composition theorem over the proved queue (C02-C04) and extractor (C05) models: for every queue class, every timed pause/resume history, any interleaving of generation and '
@@ -145,7 +145,7 @@ CHECKS = {
    text='Theorem C13_all_chunkings: for every debounce length >= 1, initial state, detect mode, first index, plain or annotated input and EVERY chunking (incl. empty and length-1 chunks) of a stream whose '
         'ended runs are all longer than the debounce length, the events reported after any number of chunks are exactly the transitions due so far, once each, in order, with latency <= m-1 samples; one '
         'block per chunk, blocks tile the timeline; range queries = filter by sample; merging adjacent blocks = append. Model tied to pipeline.py by all chunkings of all clean streams up to length 6-9.',
-   ref='DESIGN.md section 6 C13', note=COMMON_NOTE + ' Reuses the proved C18 run-detection model. A falling event may lie up to m-1 samples past its own block\'s end (stated as C13_event_outside_block; the property does not claim containment).',
+   ref='DESIGN.md section 6 C13', note=COMMON_NOTE + ' Reuses the proved C18 run-detection model. Where a block\'s events lie is proved exactly (C13_events_not_before_block: rising in (start, end], falling in [start+m, end+m); _in_span_refuted; merged prefixes; whole-span queries partial / refuted): the property does not claim containment, and event_rate was repaired to accept such blocks (C12).',
    technique='Coq proof (window-vs-stream run characterisation, induction over chunk lists) + vm_compute correspondence against pipeline.py'),
  'C16': dict(
    text='Theorems over R about scale expressions REGENERATED from util.py on every run: dB helpers exact inverses (20 log10; 20 uPa), band level = spectrum level + 10 log10 n; for every N and '
